@@ -1,5 +1,6 @@
 import GitSizer.Driver.Counts
 import GitSizer.Driver.Human
+import GitSizer.Driver.Parsers
 /-! `gsmodel`: reads case lines (engine TAB id TAB input… TAB => TAB observed…) on stdin and
     prints one verdict line per case: id TAB verdict… -/
 open GitSizer.Driver
@@ -8,6 +9,7 @@ def engineOf (name : String) : Option Engine :=
   match name with
   | "counts" => some countsEngine
   | "human" => some humanEngine
+  | "parsers" => some parsersEngine
   | _ => none
 
 def splitCase (fields : List String) : List String × List String :=
